@@ -5,5 +5,6 @@ CONSTANTS
   MaxCalls = 2
   NopProcs = {}
   Variant = "norecheck"
+  Ctxs = {"live"}
 INVARIANTS LawObeyed
 CHECK_DEADLOCK FALSE
